@@ -35,6 +35,19 @@ class VecIter(object):
 _IPD_MEMO = {}
 
 
+class ListIt(object):
+    """an iterator over vectors / ranges of concrete length, materialised: [(guard, item)] in order (adaptors are applied eagerly)"""
+
+    def __init__(self, items):
+        self.items = list(items)
+        self.pos = 0
+
+    def copy_val(self, memo, cp):
+        n = ListIt([(g, cp(v, memo)) for g, v in self.items])
+        n.pos = self.pos
+        return n
+
+
 def ipdoms(f):
     """immediate post-dominators of the reachable blocks (virtual exit = every block without successors); cached per function object"""
     k = id(f)
@@ -171,8 +184,50 @@ class GInterp(Interp):
                 return len(v.items)
         if short == "into_iter":
             args = [self.operand(st, a) for a in t["args"]]
-            if isinstance(args[0], (VecIter, RangeIt, FilterIt, ZipIt, bitsem.It)):
+            if isinstance(args[0], (VecIter, RangeIt, FilterIt, ZipIt, bitsem.It, ListIt)):
                 return args[0]
+        if c in ("core::iter::Iterator::flat_map", "core::iter::Iterator::map", "core::iter::Iterator::zip", "core::iter::Iterator::rev",
+                 "core::iter::Iterator::enumerate") or \
+                (c == "core::iter::Iterator::filter" and isinstance(self.operand(st, t["args"][0]), ListIt)):
+            # adaptors over iterators of concrete length are applied eagerly, item by item (guards of conditional items are carried along)
+            a = [self.operand(st, x) for x in t["args"]]
+            src = self.materialise(st, a[0])
+            if src is not None:
+                if short == "rev":
+                    if any(g != 1 for g, _ in src):
+                        raise Undecided("rev over conditional items")
+                    return ListIt(reversed(src))
+                if short == "enumerate":
+                    if any(g != 1 for g, _ in src):
+                        raise Undecided("enumerate over conditional items")
+                    return ListIt([(1, Tup([i, v])) for i, (g, v) in enumerate(src)])
+                if short == "zip":
+                    oth = self.materialise(st, a[1])
+                    if oth is None or any(g != 1 for g, _ in src) or any(g != 1 for g, _ in oth):
+                        raise Undecided("zip of unmodelled or conditional iterators")
+                    return ListIt([(1, Tup([x, y])) for (_, x), (_, y) in zip(src, oth)])
+                if not isinstance(a[1], Closure):
+                    raise Undecided("%s with an unmodelled function" % short)
+                out = []
+                for g, x in src:
+                    if short == "map":
+                        out.append((g, self.exec_closure(st, a[1], [x])))
+                    elif short == "flat_map":
+                        inner = self.materialise(st, self.exec_closure(st, a[1], [x]))
+                        if inner is None:
+                            raise Undecided("flat_map: the closure does not return a modelled iterator")
+                        out.extend((bf_op("and", g, g2) if g != 1 else g2, y) for g2, y in inner)
+                    else:       # filter: the predicate takes a reference to the item
+                        self._scratch = getattr(self, "_scratch", 0) + 1
+                        slot = -5000 - self._scratch
+                        st.locals[slot] = x
+                        gd = self.exec_closure(st, a[1], [Ref(("local", slot, (), st.frame))])
+                        if isinstance(gd, BV):
+                            gd = gd.bits[0] if gd.concrete() is None else gd.concrete()
+                        if gd == 0:
+                            continue
+                        out.append((g if gd == 1 else (gd if g == 1 else bf_op("and", g, gd)), x))
+                return ListIt(out)
         if c == "core::ops::RangeInclusive::<Idx>::new":
             a = [self.operand(st, x) for x in t["args"]]
             return RangeIt(a[0], a[1], True)
@@ -183,6 +238,15 @@ class GInterp(Interp):
                 if isinstance(inner, Adt) and (inner.path or "").startswith("core::ops::Range"):
                     inner = RangeIt(inner.fields[0], inner.fields[1], "Inclusive" in inner.path)
                 return FilterIt(inner, a[1])
+        if c.endswith("Iterator::collect") and isinstance(self.operand(st, t["args"][0]), ListIt):
+            it = self.operand(st, t["args"][0])
+            import libmodel
+            out = GVec(cap=libmodel.capacity_of_type(self.place_ty(t["dest"])))
+            for g, v in it.items[it.pos:]:
+                if out.cap is not None and len(out.items) >= out.cap:
+                    raise Panic("collect into a full ArrayVec (capacity %d)" % out.cap)
+                out.items.append((g if self.guard == 1 else bf_op("and", self.guard, g), v))
+            return out
         if c.endswith("Iterator::collect"):
             a = [self.operand(st, x) for x in t["args"]]
             it = a[0]
@@ -228,6 +292,40 @@ class GInterp(Interp):
         return Interp.call(self, st, t)
 
     hooks = {}
+
+    def materialise(self, st, it):
+        """[(guard, item)] of an iterator of concrete length, or None"""
+        if isinstance(it, Ref):
+            v = self.vec_of(st, it)
+            if v is None:
+                it = self._get(st, it.loc)
+            else:
+                it = VecIter(v, False)
+        if isinstance(it, ListIt):
+            return list(it.items[it.pos:])
+        if isinstance(it, VecIter):
+            out = []
+            for g, v in it.vec.items[it.pos:]:
+                if it.by_value:
+                    out.append((g, v))
+                else:
+                    self._scratch = getattr(self, "_scratch", 0) + 1
+                    slot = -5000 - self._scratch
+                    st.locals[slot] = v
+                    out.append((g, Ref(("local", slot, (), st.frame))))
+            return out
+        if isinstance(it, Adt) and (it.path or "").startswith("core::ops::Range") and len(it.fields) >= 2:
+            it = RangeIt(it.fields[0], it.fields[1], "Inclusive" in it.path)
+        if isinstance(it, RangeIt):
+            lo, hi = it.lo, it.hi
+            if isinstance(lo, BV):
+                lo = lo.concrete()
+            if isinstance(hi, BV):
+                hi = hi.concrete()
+            if not (isinstance(lo, int) and isinstance(hi, int)) or hi - lo > 4096:
+                return None
+            return [(1, e) for e in range(lo, hi + 1 if it.inclusive else hi)]
+        return None
 
     # ---- driver with if-conversion
     def run_region(self, st, b, stop, depth=0):
